@@ -354,6 +354,70 @@ Proof.
   rewrite Hk. apply ModListProofs.setslice_list_separate; assumption.
 Qed.
 
+(* l[a:b:c] = vs with a step other than 1 (extended-slice assignment).  The positions written are those l[a:b:c] reads
+   (pairwise distinct, inside the list); the built-in's two ValueErrors (step 0; sizes differ) leave the state as it was;
+   otherwise the list places the values at these positions and every value just assigned stays only at the LAST position
+   it was assigned to (assign_ext): a module assigned while it sits elsewhere in this list, or named twice, is moved, not
+   duplicated -- no duplicate, the members are the values and the elements at the positions not written, everything in
+   the list is owned by this IR, what left the list has no owner.  For distinct values none of which stays in the list
+   outside the written positions the result is the built-in list's: the i-th value at the i-th position, every other
+   position untouched, and reading the same slice back returns the values. *)
+Theorem C16_modlist_setslice_extended : forall w known ir a b c vs, reachable_k w known ->
+  op_okb w known (OModSetExt ir a b c vs) = true ->
+  let l := kids w ir in
+  let o := OModSetExt ir a b c vs in
+  (c = 0 -> step w o = Err EValue /\ step' w o = w) /\
+  (forall s e st, py_slice_indices a b c (length l) = Ok (s, e, st) ->
+     let ps := py_range_positions s e st (length l) in
+     st = c /\ NoDup ps /\ (forall p, In p ps -> (p < length l)%nat) /\
+     (length vs <> length ps -> step w o = Err EValue /\ step' w o = w) /\
+     (length vs = length ps ->
+      exists w', step w o = Ok w' /\
+        kids w' ir = assign_ext l ps vs /\ NoDup (kids w' ir) /\
+        (forall x, In x (kids w' ir) <-> In x vs \/ (exists q, nth_error l q = Some x /\ ~ In q ps)) /\
+        (forall x, In x (kids w' ir) -> par w' x = Some ir) /\
+        (forall x, In x l -> ~ In x (kids w' ir) -> par w' x = None) /\
+        (NoDup vs -> (forall v, In v vs -> forall q, nth_error l q = Some v -> In q ps) ->
+         kids w' ir = set_positions l ps vs /\
+         (forall i p v, nth_error ps i = Some p -> nth_error vs i = Some v -> nth_error (kids w' ir) p = Some v) /\
+         (forall q, ~ In q ps -> nth_error (kids w' ir) q = nth_error l q) /\
+         py_getslice (kids w' ir) a b c = Ok vs))).
+Proof.
+  intros w known ir a b c vs R G l o.
+  pose proof (reach_forest w known R) as F. pose proof (reach_cache w known R) as C.
+  destruct (ModListProofs.setext_effect_errors w ir a b c vs) as [E0 E1].
+  assert (Hc1 : c <> 1).
+  { pose proof G as G'. cbn [op_okb] in G'. apply andb_true_iff in G'. destruct G' as [_ G'].
+    apply negb_true_iff in G'. apply Z.eqb_neq in G'. exact G'. }
+  split; [exact E0|]. intros s e st E ps.
+  destruct (SeqOpsProofs.py_range_positions_NoDup a b c (length l) s e st E) as (Hst & _ & Hnd & Hlt).
+  split; [exact Hst|]. split; [exact Hnd|]. split; [exact Hlt|]. split.
+  - intro Hlen. exact (E1 s e st Hc1 E Hlen).
+  - intro Hlen.
+    destruct (ModListProofs.setext_effect w known ir a b c vs s e st F C G E Hlen) as (w' & Hs & Hk & Hn & Hp & Hq).
+    exists w'. split; [exact Hs|]. split; [exact Hk|]. split; [exact Hn|]. split.
+    { intro x. rewrite Hk. apply ModListProofs.In_assign_ext; assumption. }
+    split; [exact Hp|]. split; [exact Hq|]. intros Hndv Hsep.
+    assert (Ek : kids w' ir = set_positions l ps vs).
+    { rewrite Hk. apply ModListProofs.assign_ext_separate; try assumption. apply (f_nodup w known F). }
+    split; [exact Ek|]. rewrite Ek. split; [|split].
+    + intros i p v Hi Hv. exact (ModListProofs.nth_set_positions_in ps vs l i p v Hnd Hlt Hi Hv).
+    + intros q Hq'. apply ModListProofs.nth_set_positions_out. exact Hq'.
+    + exact (ModListProofs.set_positions_read_back l a b c vs s e st E Hlen).
+Qed.
+
+(* the premise of the closed form is exact: on a list without duplicates nothing is dropped if and only if the built-in
+   list's result has no duplicates -- the values are distinct and none of them stays outside the written positions *)
+Theorem C16_modlist_setslice_extended_exact : forall (l : list id) ps vs,
+  NoDup l -> NoDup ps -> (forall p, In p ps -> (p < length l)%nat) -> length vs = length ps ->
+  (assign_ext l ps vs = set_positions l ps vs <->
+   NoDup vs /\ (forall v, In v vs -> forall q, nth_error l q = Some v -> In q ps)).
+Proof.
+  intros l ps vs Hnd Hndp Hlt Hlen. split.
+  - apply ModListProofs.assign_ext_separate_conv; assumption.
+  - intros [Hndv Hsep]. apply ModListProofs.assign_ext_separate; assumption.
+Qed.
+
 (* the same-list shapes (the former finding D4): a module assigned while it already sits elsewhere in this list, or named
    more than once on the right-hand side, is moved -- the list keeps no duplicate, the replaced elements that are not
    assigned again leave the list and lose their owner, everything in the list is owned by this IR *)
@@ -681,6 +745,44 @@ Proof.
   - vm_compute. repeat split; try reflexivity; try discriminate. left. reflexivity.
 Qed.
 
+(* non-vacuity of C16_modlist_setslice_extended: IR 1 with ir.modules = [3; 4; 5], modules 6 and 7 unowned.
+   l[::2] = [6, 7] (fresh values: the built-in result, 3 and 5 leave and lose their owner); l[::-1] = [3, 4, 5] (a
+   permutation: nothing leaves, nothing enters, the list is reversed); l[::2] = [6, 6] (named twice: kept once, at the
+   last position); l[::2] = [4, 6] (4 sits at position 1: moved to position 0); a size mismatch and step 0: ValueError,
+   state unchanged *)
+Example C16_modlist_setslice_extended_example :
+  let h := [ONew 1 KIR 101 None 0 0 0 PNone; ONew 3 KMod 103 None 0 0 0 PNone; ONew 4 KMod 104 None 0 0 0 PNone;
+            ONew 5 KMod 105 None 0 0 0 PNone; ONew 6 KMod 106 None 0 0 0 PNone; ONew 7 KMod 107 None 0 0 0 PNone;
+            OModExtend 1 [3; 4; 5]] in
+  let w := fst (run_guarded w0 [] h) in
+  let known := snd (run_guarded w0 [] h) in
+  let after o := let w' := step' w o in (kids w' 1, map (par w') [3; 4; 5; 6; 7]) in
+  let outcome o := (op_okb w known o, match step w o with Ok _ => None | Err e => Some e end) in
+  reachable_k w known /\ after (OTouch 1) = ([3; 4; 5], [Some 1; Some 1; Some 1; None; None]) /\
+  (py_slice_indices None None 2 3 = Ok (0, 3, 2) /\ py_range_positions 0 3 2 3 = [0; 2]%nat /\
+   py_slice_indices None None (-1) 3 = Ok (2, -1, -1) /\ py_range_positions 2 (-1) (-1) 3 = [2; 1; 0]%nat) /\
+  outcome (OModSetExt 1 None None 2 [6; 7]) = (true, None) /\
+  after (OModSetExt 1 None None 2 [6; 7]) = ([6; 4; 7], [None; Some 1; None; Some 1; Some 1]) /\
+  set_positions [3; 4; 5] [0; 2]%nat [6; 7] = [6; 4; 7] /\
+  py_getslice (kids (step' w (OModSetExt 1 None None 2 [6; 7])) 1) None None 2 = Ok [6; 7] /\
+  outcome (OModSetExt 1 None None (-1) [3; 4; 5]) = (true, None) /\
+  after (OModSetExt 1 None None (-1) [3; 4; 5]) = ([5; 4; 3], [Some 1; Some 1; Some 1; None; None]) /\
+  outcome (OModSetExt 1 None None 2 [6; 6]) = (true, None) /\
+  after (OModSetExt 1 None None 2 [6; 6]) = ([4; 6], [None; Some 1; None; Some 1; None]) /\
+  set_positions [3; 4; 5] [0; 2]%nat [6; 6] = [6; 4; 6] /\
+  after (OModSetExt 1 None None 2 [4; 6]) = ([4; 6], [None; Some 1; None; Some 1; None]) /\
+  after (OModSetExt 1 (Some 1) None (-1) [5; 3]) = ([3; 5], [Some 1; None; Some 1; None; None]) /\
+  outcome (OModSetExt 1 None None 2 [6]) = (true, Some EValue) /\
+  outcome (OModSetExt 1 None None 2 [6; 7; 6]) = (true, Some EValue) /\
+  outcome (OModSetExt 1 None None 0 [6; 7]) = (true, Some EValue) /\
+  outcome (OModSetExt 1 None None 1 [6; 7]) = (false, Some EImpossible) /\
+  after (OModSetExt 1 None None 2 [6]) = after (OTouch 1) /\ after (OModSetExt 1 None None 0 [6; 7]) = after (OTouch 1).
+Proof.
+  cbv zeta. split.
+  - eexists. symmetry. apply surjective_pairing.
+  - vm_compute. repeat split.
+Qed.
+
 Print Assumptions C16_set_add.
 Print Assumptions C16_set_discard.
 Print Assumptions C16_set_remove.
@@ -707,6 +809,8 @@ Print Assumptions C16_modlist_delslice.
 Print Assumptions C16_modlist_setitem.
 Print Assumptions C16_modlist_setitem_index_error.
 Print Assumptions C16_modlist_setslice.
+Print Assumptions C16_modlist_setslice_extended.
+Print Assumptions C16_modlist_setslice_extended_exact.
 Print Assumptions C16_same_list_assignment_moves.
 Print Assumptions C16_same_list_setitem_position.
 Print Assumptions C16_modlist_clear.
@@ -733,3 +837,4 @@ Print Assumptions C16_failed_op_leaves_state.
 Print Assumptions C16_keyerror_exactly_builtin.
 Print Assumptions C16_example.
 Print Assumptions C16_same_list_assignment_example.
+Print Assumptions C16_modlist_setslice_extended_example.
